@@ -403,7 +403,18 @@ def model_harness(doc: dict, package: str, data: Any, depth_max: int = 2, list_m
             fn5 = f"memb_{cls}_{p.python_name}"
             src.append(func_source(fn5, gb, base_lines, f"membership_ok({cls}, build(), {p.name!r}, pick({tuple(cands)!r}, {ci}), {ci} < {len(vals)}, {str(p.python_name)!r})"))
             funcs.append(fn5)
-    src.insert(2, "from vlib.e3_support import annotations_ok, defaults_ok, membership_ok, required_ok, tristate_ok")
+    # an object component that declares properties / requirements of its own must have a class of its own: a schema that
+    # is quietly replaced by another one (e.g. by the single-reference shortcut) would otherwise escape every condition
+    for name, schema in sorted(doc["components"]["schemas"].items()):
+        if only and name not in only:
+            continue
+        if name in idx or not isinstance(schema, dict) or not (schema.get("properties") or schema.get("required")):
+            continue
+        fn7 = "absent_" + "".join(ch if ch.isalnum() else "_" for ch in name)
+        why = f"component schema {name} declares properties/required of its own but no class was generated for it"
+        src.append(f'def {fn7}() -> bool:\n    """\n    post: _\n    """\n    return missing_piece({why!r})\n')
+        funcs.append(fn7)
+    src.insert(2, "from vlib.e3_support import annotations_ok, defaults_ok, membership_ok, missing_piece, required_ok, tristate_ok")
     src.insert(3, f"import {package}.models as _models\nimport datetime, uuid, typing\n_NS = dict(vars(_models), datetime=datetime, UUID=uuid.UUID, Unset=Unset, **vars(typing))")
     return "\n".join(src) + "\n", funcs, meta
 
@@ -811,11 +822,18 @@ def run(family: str, skeleton: str, prefixes: list[str], include_unregistered: b
             src, funcs, meta = model_harness(d, pkg, data, depth_max=2 if thorough else 1, list_max=2, str_max=4 if thorough else 3)
         else:
             src, funcs, meta = endpoint_harness(d, pkg, data, cfg, list_max=2, str_max=3 if thorough else 2)
-        funcs = [f for f in funcs if any(f.startswith(p) for p in prefixes)]
+        funcs = [f for f in funcs if any(f.startswith(p) for p in prefixes) or f.startswith("absent_")]
         skipped = {k: v for k, v in meta.items() if any(x in v for x in ("skipped", "req_skipped", "resp_skipped"))}
         hp = root / f"h_{skeleton}.py"
         hp.write_text(src)
         t0 = time.time()
+        broken = import_probe(hp, root, pkg)
+        if broken is not None:
+            inside, text = broken
+            if not inside:
+                return result("error", f"harness for skeleton {skeleton} cannot be loaded: {text[-600:]}")
+            w = {"what": f"{skeleton}: the regenerated client cannot be imported", "input": "__import__", "observed": text[-600:], "reproduced": True, "replay_func": replay_func, "skeleton": skeleton, "family": family, "config": config, "harness_src": src}
+            return result("violated", f"skeleton {skeleton}: generated package fails at import", witnesses=[w], cases=[f"{skeleton}/import"], queries=1, bounds={"document": f"skeleton '{skeleton}' ({family})", "config": config})
         recs = xh.check_file(hp, funcs, timeout, [str(root)], parallel=parallel)
         fb = finding_by_func or {}
         known_ids = {e["id"] for e in known}
@@ -849,6 +867,22 @@ def run(family: str, skeleton: str, prefixes: list[str], include_unregistered: b
         gen.cleanup(root)
 
 
+def import_probe(hp: Any, root: Any, pkg: str) -> tuple[bool, str] | None:
+    """Load the harness (and with it the regenerated client) in a plain interpreter.  None when it loads; otherwise
+    (failure lies inside the generated package, traceback text)."""
+    import subprocess
+
+    from . import xh
+
+    p = subprocess.run([xh.PYTHON, "-c", "import runpy, sys; runpy.run_path(sys.argv[1])", str(hp)], capture_output=True, text=True, timeout=300, env=xh._env([str(root)]), cwd=str(root))
+    if p.returncode == 0:
+        return None
+    text = (p.stderr or p.stdout).strip()
+    frames = [ln for ln in text.splitlines() if ln.lstrip().startswith("File ")]
+    inside = bool(frames) and f"/{pkg}/" in frames[-1]
+    return inside, text
+
+
 def replay(w: dict) -> dict:
     """Regenerate the skeleton client from the current tree and re-run the recorded counterexample call concretely."""
     from . import gen, xh
@@ -860,6 +894,9 @@ def replay(w: dict) -> dict:
         gen.generate(docs[w["skeleton"]], root, f"sk_{w['skeleton']}", **(w.get("config") or {}))
         hp = root / "h_replay.py"
         hp.write_text(w["harness_src"])
+        if w["input"] == "__import__":
+            broken = import_probe(hp, root, f"sk_{w['skeleton']}")
+            return {"reproduced": bool(broken and broken[0]), "observed": (broken[1][-600:] if broken else "imports")}
         return xh.replay_call(hp, w["input"], [str(root)])
     finally:
         gen.cleanup(root)
